@@ -323,10 +323,11 @@ CHECKS["C27"] = dict(
     entries=[
         dict(name="harness_c27_binary", quick={"B": 1}, thorough={"B": 3, "_wall": 1700}),
         dict(name="harness_c27_ternary", quick={"B": 1}, thorough={"B": 2, "_wall": 1700}, thorough_only=True),
+        dict(name="harness_c27_nested", quick={"B": 1}, thorough={"B": 2}),
         dict(name="harness_c27_topology", quick={"B": 1}, thorough={"B": 3}),
     ],
     anchors=["SymEngine::Interval::set_union", "SymEngine::Interval::set_intersection", "SymEngine::set_union", "SymEngine::set_intersection", "SymEngine::set_complement", "SymEngine::Interval::contains", "SymEngine::FiniteSet::contains", "SymEngine::closure", "SymEngine::interior", "SymEngine::boundary"],
-    bounds="operands: intervals with symbolic integer end points |e|<=1 (3) and all open/closed flags, half-lines to -oo/+oo, finite sets of two symbolic integers, empty set, reals, rationals, integers, universal set; all ordered pairs (triples in the thorough tier) under union, intersection, complement (free functions and member functions); the test point is a symbolic half-integer covering end points and gaps; membership in the result by an independent structural walker and by contains(); closure/interior/boundary of a union of two intervals",
+    bounds="operands: intervals with symbolic integer end points |e|<=1 (3) and all open/closed flags, half-lines to -oo/+oo, finite sets of two symbolic integers, empty set, reals, rationals, integers, naturals, naturals0, universal set; operations on unevaluated Intersection / Complement results (nested entry); all ordered pairs (triples in the thorough tier) under union, intersection, complement (free functions and member functions); the test point is a symbolic half-integer covering end points and gaps; membership in the result by an independent structural walker and by contains(); closure/interior/boundary of a union of two intervals",
     outside=["rational end points with other denominators", "ImageSet, ConditionSet", "sup/inf"],
 )
 
